@@ -132,7 +132,9 @@ def eval_case(case, res: core.ShardResult | None = None) -> list:
     # whole PDU consumed
     if not fails and ref is not None and len(pdu) != len(ref.pdu):
         fails.append(_fail("pdu-length", f"PDU has {len(pdu)} bytes, reference layout {len(ref.pdu)} ({pdu.hex()})", case))
-    if not fails and "mux-case-without-structure" not in feats:
+    if not fails and "mux-case-without-structure" not in feats and "last-listed-not-last" not in feats:
+        # (the cursor after a list is the end of its last *listed* parameter, E19; where that is not the
+        # positionally last one the cursor says nothing about how much of the PDU was described)
         from odxtools.decodestate import DecodeState
         with mh.quiet_warnings():
             try:
@@ -197,7 +199,8 @@ def run_shard(spec, seed, tier):
     res = core.ShardResult()
     kf = known.load(PROPERTY)
     _, _, variant = spec
-    opts = {"mux_nostruct_anywhere": True, "static_table_row": True, "mux_default_by_name": True} if variant == "muxfree" else None
+    opts = {"mux_nostruct_anywhere": True, "static_table_row": True, "mux_default_by_name": True,
+            "last_listed_not_last": True} if variant == "muxfree" else None
 
     def body(case):
         out = []
